@@ -4,42 +4,34 @@ From SH Require Import gen.Extracted_pipe pipe.Model pipe.Spec pipe.Proofs.
 Import ListNotations.
 Open Scope nat_scope.
 
-Lemma sum_bytes_zero_or_pos : forall q, 1 <= sum_bytes q \/ Forall (fun u => ubytes u = 0) q.
+Lemma sum_bytes_pos : forall q, q <> [] -> Forall nonempty_unit q -> 1 <= sum_bytes q.
 Proof.
-  induction q as [|u t IH]; [right; constructor|].
-  cbn [sum_bytes]. destruct (ubytes u) eqn:E; [|left; lia].
-  destruct IH as [IH|IH]; [left; lia|right; constructor; assumption].
+  intros q N F. destruct q as [|u t]; [congruence|]. inversion F; subst.
+  unfold nonempty_unit in *. cbn [sum_bytes]. lia.
 Qed.
 
-Lemma cinv_partial : forall accept c, accept_empty accept -> cinv accept c ->
-  chan_ok_partial c /\ (c_kind c <> KDgram -> chan_ok_full c).
+Lemma cinv_full : forall (W : Prop) accept c, accept_empty accept -> W -> cinv W accept c -> chan_ok_full c.
 Proof.
-  intros accept c HA H.
-  assert (P : chan_ok_partial c).
-  { intro K. destruct (H HA K) as [H1 H2]. split; [exact H1|]. intro S. specialize (H2 S).
-    assert (L : 1 <= length (c_q c)) by (destruct (c_q c); [congruence|cbn; lia]).
-    split; [exact L|]. unfold readable_bytes, only_empty_datagrams.
-    destruct (c_kind c) eqn:EK; try discriminate K; auto.
-    destruct (sum_bytes_zero_or_pos (c_q c)); auto. }
-  split; [exact P|]. intros ND K. destruct (P K) as [H1 H2]. split; [exact H1|].
-  intro S. destruct (H2 S) as [_ [B|[D _]]]; [exact B|contradiction].
+  intros W accept c HA HW H K. destruct (H HA HW K) as (H1 & H2 & H3). split; [exact H1|].
+  intro S. specialize (H2 S). unfold readable_bytes.
+  destruct (c_kind c) eqn:EK; try discriminate K.
+  - destruct (c_q c); [congruence|cbn; lia].
+  - destruct (c_q c); [congruence|cbn; lia].
+  - apply sum_bytes_pos; auto.
 Qed.
 
-(** strongest true form of the first sentence of C13 *)
-Theorem one_nonblocking_byte_partial :
-  forall accept, accept_empty accept ->
-  forall (w : list chan_spec) (h : list op),
-    (forall sig, delivery_ok accept (run accept w h) sig) /\
-    (forall ch, let c := getc (chans (run accept w h)) ch in
-                chan_ok_partial c /\ (c_kind c <> KDgram -> chan_ok_full c)).
+(** the first sentence of C13, every kind (datagram sockets included), in bytes *)
+Theorem one_nonblocking_byte : one_nonblocking_byte_statement.
 Proof.
-  intros accept HA w h. pose proof (Inv_run accept w h) as I. split.
-  - intro sig. apply (Inv_deliver accept _ sig I). exact HA.
-  - intro ch. cbn zeta. apply (cinv_partial accept); [exact HA|]. apply (inv_chan accept _ I).
+  intros accept HA w h HW.
+  pose proof (Inv_run (world_in_bytes w) accept w h (fun x => x)) as I. split.
+  - intro sig. apply (Inv_deliver _ accept _ sig I). exact HA.
+  - intro ch. apply (cinv_full (world_in_bytes w) accept); [exact HA|exact HW|]. apply (inv_chan _ accept _ I).
 Qed.
 
-(** the corner in which the full text fails: the queue of a datagram socket holds nothing but
-    the EMPTY datagrams that register_raw sent as its probe, and is full *)
+(** Regression witness: with the probe that the code used BEFORE the repair (a zero-length send,
+    [ProbeEmptySend]) the same model violates the statement: the queue of a datagram socket
+    holds nothing but the empty probe datagram, is full, and swallows the wake byte. *)
 Definition accept_one (clk : nat) (c : chan) : bool := match c_q c with [] => true | _ => false end.
 Definition corner_world : list chan_spec := [mkSpec KDgram false [] true false false 1].
 Definition corner_history : list op := [ORegister false 10%Z 0 OOk; ODeliver 10%Z].
@@ -47,21 +39,23 @@ Definition corner_history : list op := [ORegister false 10%Z 0 OOk; ODeliver 10%
 Lemma accept_one_empty : accept_empty accept_one.
 Proof. intros clk c Q. unfold accept_one. rewrite Q. reflexivity. Qed.
 
-Theorem dgram_corner_witness :
-  let c := getc (chans (run accept_one corner_world corner_history)) 0 in
-  accept_empty accept_one /\ c_kind c = KDgram /\ c_q c = [UProbe] /\ c_since c = 1 /\
-  readable_bytes c = 0 /\
-  evs (run accept_one corner_world corner_history) =
-    [EAttempt 0 0 SysSend 1%Z os_MSG_DONTWAIT WAgain; EOutcome 0 true; EProbe 0 0 SysSend 0%Z os_MSG_DONTWAIT WOk].
-Proof. cbn zeta. split; [exact accept_one_empty|]. vm_compute. repeat split; reflexivity. Qed.
+Lemma corner_world_in_bytes : world_in_bytes corner_world.
+Proof. intros s [E|[]] _. subst s. constructor. Qed.
 
-Theorem one_nonblocking_byte_refuted : ~ one_nonblocking_byte_statement.
+Lemma empty_send_probe_witness :
+  let st := run_from accept_one (ProbeEmptySend 0%Z os_MSG_DONTWAIT) (init corner_world) corner_history in
+  let c := getc (chans st) 0 in
+  c_kind c = KDgram /\ c_q c = [UProbe] /\ c_since c = 1 /\ readable_bytes c = 0 /\ ~ chan_ok_full c.
 Proof.
-  intro H. destruct (H accept_one accept_one_empty corner_world corner_history) as [_ C].
-  specialize (C 0). unfold chan_ok_full in C.
-  destruct dgram_corner_witness as (_ & K & _ & S & B & _). cbn zeta in *.
-  rewrite K, S, B in C. destruct (C eq_refl) as [_ X]. specialize (X (le_n 1)). lia.
+  cbn zeta. vm_compute. repeat split; try reflexivity.
+  intro H. destruct (H eq_refl) as [_ X]. specialize (X (le_n 1)). inversion X.
 Qed.
+
+(** ... and with the extracted probe the same history leaves the byte readable *)
+Example corner_now_fine :
+  let c := getc (chans (run accept_one corner_world corner_history)) 0 in
+  c_q c = [UWake] /\ c_since c = 1 /\ readable_bytes c = 1.
+Proof. vm_compute. repeat split; reflexivity. Qed.
 
 (* ---------------------------------------------------------------- descriptor life cycle *)
 Lemma count_close_rev : forall id l, count_close id (rev l) = count_close id l.
@@ -92,7 +86,7 @@ Definition fd_lifecycle_statement : Prop :=
 
 Theorem fd_lifecycle : fd_lifecycle_statement.
 Proof.
-  intros accept w h st trace. pose proof (Inv_run accept w h) as I. fold st in I.
+  intros accept w h st trace. pose proof (Inv_run False accept w h (fun x => match x with end)) as I. fold st in I.
   destruct I as [_ _ Icl If Io]. unfold trace. split; [|split].
   - intros id r H. rewrite count_close_rev. apply Icl. exact H.
   - intros id L. rewrite count_close_rev. apply If. exact L.
@@ -105,15 +99,15 @@ Qed.
 
 (** how a registration ends is decided by the registry's answer and by set_flags *)
 Theorem registration_outcome : forall accept st g sig ch o,
-  let st' := register accept st g sig ch o in
+  let st' := register accept rr_probe st g sig ch o in
   exists r, regs st' = regs st ++ [r] /\
             (o <> OOk -> r_status r = Rejected) /\
             (r_status r = Active \/ r_status r = Rejected).
 Proof.
   intros accept st g sig ch o. cbn zeta.
-  unfold register, rr_probe, rr_send_pats, rr_then, rr_else, rr_after, register_conv.
-  destruct (sys_result accept (clock st) (getc (chans st) ch) SysSend 0%Z 64%Z);
-    cbn [pres_of existsb pat_matches orb app interp drop_if];
+  unfold register, run_probe, rr_probe, rr_send_pats, rr_then, rr_else, rr_after, register_conv.
+  destruct (sockopt_result (getc (chans st) ch) 1%Z 3%Z);
+    cbn [existsb pat_matches orb app interp drop_if];
     try (destruct (set_flags _)); destruct o; cbn;
     eexists; (split; [reflexivity|]); cbn; split; auto; intro X; congruence.
 Qed.
@@ -135,7 +129,7 @@ Definition pipe_full : chan_spec := mkSpec KPipe false [1;1;1] true false false 
     three attempts that all fail with EAGAIN (none blocks), the reader sees the 3 old bytes *)
 Example ex_full_pipe :
   let st := run accept_cap [pipe_full] [ORegister false 10%Z 0 OOk; ODeliver 10%Z; ODeliver 10%Z; ODeliver 10%Z] in
-  rev (evs st) = [EProbe 0 0 SysSend 0%Z 64%Z WErr; ESetFlags 0 0 true; EOutcome 0 true;
+  rev (evs st) = [EGetsockopt 0 0 1%Z 3%Z PROther; ESetFlags 0 0 true; EOutcome 0 true;
                   EAttempt 0 0 SysWrite 1%Z 0%Z WAgain; EAttempt 0 0 SysWrite 1%Z 0%Z WAgain; EAttempt 0 0 SysWrite 1%Z 0%Z WAgain]
   /\ c_nonblock (getc (chans st) 0) = true /\ readable_bytes (getc (chans st) 0) = 3 /\ c_since (getc (chans st) 0) = 3.
 Proof. vm_compute. repeat split; reflexivity. Qed.
@@ -147,10 +141,10 @@ Example ex_drain_then_byte :
   /\ length (filter (uses 0) (evs st)) = 4.
 Proof. vm_compute. repeat split; reflexivity. Qed.
 
-(** a datagram socket: probe = one empty datagram, then one message per delivery *)
+(** a datagram socket: the probe queues nothing, then one one-byte message per delivery *)
 Example ex_dgram :
   let st := run accept_cap [mkSpec KDgram false [] true false false 4] [ORegister true 10%Z 0 OOk; ODeliver 10%Z; ODeliver 10%Z] in
-  c_q (getc (chans st) 0) = [UProbe; UWake; UWake] /\ readable_bytes (getc (chans st) 0) = 2
+  c_q (getc (chans st) 0) = [UWake; UWake] /\ readable_bytes (getc (chans st) 0) = 2
   /\ c_nonblock (getc (chans st) 0) = false /\ map r_method (regs st) = [Send].
 Proof. vm_compute. repeat split; reflexivity. Qed.
 
